@@ -636,7 +636,8 @@ RULE = ("geometry: atoms on a 2^-10 nm grid built as bonded chains (kinds random
         "is non-trivial when the exact value is not degenerate; topologies: 1..4 chains x 1..12 residues of the 20 amino "
         "acids with real atom names, also under residue names outside mdtraj's amino-acid table (force-field variants HID/CYX/ASH..., "
         "D-amino acids, modified residues, lower case), caps ACE/NME, water/ion/ligand residues in between (one ligand with N/CA/C), "
-        "random atom deletions, duplicated atom names; "
+        "random atom deletions, duplicated atom names; history axis: on one Topology object the calls are interleaved with in-place "
+        "edits (atom/residue renames that add or remove a torsion, delete+insert keeping the counts, add_atom, new chain), compared after every edit; "
         "distinct by hash of (recipe, op)")
 TRUSTED = ["harness/impl/geom_impl.py (builds Trajectory/Topology objects, calls the public API, returns raw arrays)",
            "harness/props/C07.py: translators (kernel statements by anchored patterns + expression parser; Python ast), "
@@ -1073,6 +1074,7 @@ def gen_topology(gen):
 
 
 def coq_topology(chains):
+    """atoms are names (indices implicit, in order) or [name, index] pairs (after in-place edits)"""
     out = []
     rid = 0
     aid = 0
@@ -1081,12 +1083,132 @@ def coq_topology(chains):
         for r in ch:
             atoms = []
             for a in r["atoms"]:
-                atoms.append("(%s, %s)" % (cstr(a), cnat(aid)))
+                if isinstance(a, (list, tuple)):
+                    atoms.append("(%s, %s)" % (cstr(a[0]), cnat(a[1])))
+                else:
+                    atoms.append("(%s, %s)" % (cstr(a), cnat(aid)))
                 aid += 1
             rs_.append("(mkres %s %s)" % (cz(rid), clist(atoms)))
             rid += 1
         out.append(clist(rs_))
     return clist(out)
+
+
+VOCAB = ["N", "CA", "C", "CB", "CG", "CG1", "CD", "CD1", "SG", "OG", "OG1", "OD1", "ND1", "SD", "NE", "CE", "OE1", "CZ", "NZ", "NH1"]
+CHI_TABLES = [
+    [["N", "CA", "CB", x] for x in ("CG", "CG1", "SG", "OG", "OG1")],
+    [["CA", "CB", "CG", "CD"], ["CA", "CB", "CG", "CD1"], ["CA", "CB", "CG1", "CD1"], ["CA", "CB", "CG", "OD1"], ["CA", "CB", "CG", "ND1"], ["CA", "CB", "CG", "SD"]],
+    [["CB", "CG", "CD", "NE"], ["CB", "CG", "CD", "CE"], ["CB", "CG", "CD", "OE1"], ["CB", "CG", "SD", "CE"]],
+    [["CG", "CD", "NE", "CZ"], ["CG", "CD", "CE", "NZ"]],
+]
+
+
+def double_match(state):
+    """a residue matched by two patterns of one chi table: the order numpy's argsort gives such ties is unspecified"""
+    for ch in state:
+        for r in ch:
+            names = {a[0] for a in r["atoms"]}
+            for tab in CHI_TABLES:
+                if sum(all(x in names for x in pat) for pat in tab) > 1:
+                    return True
+    return False
+
+
+def explicit_state(chains):
+    st, aid = [], 0
+    for ch in chains:
+        c2 = []
+        for r in ch:
+            atoms = []
+            for a in r["atoms"]:
+                atoms.append([a, aid])
+                aid += 1
+            c2.append({"name": r["name"], "atoms": atoms})
+        st.append(c2)
+    return st
+
+
+def apply_edit_state(state, ed):
+    """mirror of geom_impl.apply_edit on the harness-side description (explicit atom indices)"""
+    import copy
+    st = copy.deepcopy(state)
+    flat = [r for ch in st for r in ch]
+    k = ed[0]
+    if k == "rename_atom":
+        for r in flat:
+            for a in r["atoms"]:
+                if a[1] == ed[1]:
+                    a[0] = ed[2]
+    elif k == "rename_residue":
+        flat[ed[1]]["name"] = ed[2]
+    elif k == "delete_atom":
+        for r in flat:
+            r["atoms"] = [a for a in r["atoms"] if a[1] != ed[1]]
+            for a in r["atoms"]:
+                if a[1] > ed[1]:
+                    a[1] -= 1
+    elif k == "add_atom":
+        n = sum(len(r["atoms"]) for r in flat)
+        flat[ed[1]]["atoms"].append([ed[2], n])
+    elif k == "add_chain":
+        n = sum(len(r["atoms"]) for r in flat)
+        ch = []
+        for r in ed[1]:
+            atoms = []
+            for a in r["atoms"]:
+                atoms.append([a, n])
+                n += 1
+            ch.append({"name": r["name"], "atoms": atoms})
+        st.append(ch)
+    return st
+
+
+def gen_edit_steps(rs, chains, n_steps):
+    """steps of 1-2 in-place edits; many keep the chain/residue/atom COUNTS (renames, delete + insert)"""
+    state = explicit_state(chains)
+    steps, states = [], []
+    for _ in range(n_steps):
+        for _try in range(20):
+            cur = state
+            step = []
+            kind = rs.choice(["rename_add", "rename_remove", "rename_residue", "delete_insert", "add_atom", "add_chain", "rename_add", "rename_remove"])
+            flat = [r for ch in cur for r in ch]
+            atoms = [(ri, a) for ri, r in enumerate(flat) for a in r["atoms"]]
+            if not atoms:
+                kind = "add_chain"
+            if kind == "rename_add":          # some atom gets a name of the torsion vocabulary
+                ri, a = atoms[rs.randint(len(atoms))]
+                step.append(["rename_atom", a[1], str(VOCAB[rs.randint(len(VOCAB))])])
+            elif kind == "rename_remove":     # an atom that carries a vocabulary name loses it (or e.g. CD <-> CD1)
+                cand = [(ri, a) for ri, a in atoms if a[0] in VOCAB]
+                if not cand:
+                    continue
+                ri, a = cand[rs.randint(len(cand))]
+                new = {"CD": "CD1", "CD1": "CD", "OG": "OG1", "OG1": "OG", "CG1": "CG", "CG": "CG1"}.get(a[0]) if rs.rand() < 0.5 else None
+                step.append(["rename_atom", a[1], new or ("X" + a[0])])
+            elif kind == "rename_residue":
+                step.append(["rename_residue", int(rs.randint(len(flat))), str(rs.choice(["HOH", "ALA", "LIG", "HID", "gly"]))])
+            elif kind == "delete_insert":     # counts unchanged
+                ri, a = atoms[rs.randint(len(atoms))]
+                step.append(["delete_atom", a[1]])
+                cur = apply_edit_state(cur, step[-1])
+                step.append(["add_atom", int(rs.randint(len(flat))), str(VOCAB[rs.randint(len(VOCAB))])])
+                cur = state
+            elif kind == "add_atom":
+                step.append(["add_atom", int(rs.randint(len(flat))), str(VOCAB[rs.randint(len(VOCAB))])])
+            else:
+                nm = sorted(SIDE)[rs.randint(len(SIDE))]
+                step.append(["add_chain", [{"name": nm, "atoms": BACKBONE + SIDE[nm]}, {"name": "GLY", "atoms": list(BACKBONE)}]])
+            new_state = state
+            for ed in step:
+                new_state = apply_edit_state(new_state, ed)
+            if double_match(new_state):
+                continue
+            state = new_state
+            steps.append(step)
+            states.append(state)
+            break
+    return steps, states
 
 
 def build_topo_cases(ctx):
@@ -1097,16 +1219,27 @@ def build_topo_cases(ctx):
         gen = {"chains": rng.randint(1, 4), "max_res": rng.choice([2, 5, 12]), "p_del": rng.choice([0.0, 0.05, 0.15]),
                "p_other": rng.choice([0.0, 0.12, 0.3]), "p_dup": rng.choice([0.0, 0.04]), "seed": rng.randrange(1, 2 ** 31 - 1)}
         cases.append({"topo": gen})
+    # history axis: one Topology object, named-torsion calls interleaved with in-place edits
+    for i in range(40 if ctx.tier == "quick" else 800):
+        gen = {"chains": rng.randint(1, 3), "max_res": rng.choice([2, 4, 6]), "p_del": rng.choice([0.0, 0.05]), "p_other": 0.1, "p_dup": 0.0,
+               "seed": rng.randrange(1, 2 ** 31 - 1), "history": rng.randint(2, 5)}
+        cases.append({"topo": gen})
     return cases
 
 
 def run_topo(ctx, cases):
     payload = []
     tops = []
+    hists = {}
     for k, c in enumerate(cases):
         chains = gen_topology(c["topo"])
         tops.append(chains)
-        payload.append({"id": k, "chains": chains})
+        entry = {"id": k, "chains": chains}
+        if c["topo"].get("history"):
+            steps, states = gen_edit_steps(np.random.RandomState(c["topo"]["seed"] ^ 0x5A5A5A), chains, c["topo"]["history"])
+            entry["steps"] = steps
+            hists[k] = (steps, states)
+        payload.append(entry)
     res = ctx.run_impl("geom_impl.py", {"inputs": None, "outputs": None, "geom": [], "topo": payload})
     errors = res.get("errors", {})
     coqcases, meta = [], []
@@ -1128,7 +1261,17 @@ def run_topo(ctx, cases):
                      expected="identical", tags={"kind": "named_compute_mismatch"})
         exp = clist([clist([clist([cnat(a) for a in q]) for q in r["indices"][nm]]) for nm in NAMES])
         coqcases.append((coq_topology(tops[k]), exp))
-        meta.append(k)
+        meta.append((k, None))
+        if k in hists:
+            steps, states = hists[k]
+            for si, (st, rr) in enumerate(zip(states, r.get("history", []))):
+                ctx.count({"topo": c["topo"], "step": si}, nontrivial=True, bucket="topology/history/%s" % "+".join(e[0] for e in steps[si]))
+                if not rr["compute_equal"]:
+                    ctx.fail("md.compute_<torsion> disagrees with indices_<torsion> + compute_dihedrals", rec, observed="indices or angles differ",
+                             expected="identical", tags={"kind": "named_compute_mismatch"})
+                exp = clist([clist([clist([cnat(a) for a in q]) for q in rr["indices"][nm]]) for nm in NAMES])
+                coqcases.append((coq_topology(st), exp))
+                meta.append((k, si))
     if not coqcases:
         return
     bad, errs = ctx.coq_mismatches(["MD.Geom.Topo"], ("topo", "list (list (list nat))"), "idx3_eqb", "named_all", coqcases, shard=100)
@@ -1136,10 +1279,16 @@ def run_topo(ctx, cases):
         ctx.break_("correspondence:coqc-evaluation", "\n".join(errs))
         return
     for i in bad:
-        k = meta[i]
-        ctx.fail("a named torsion (phi/psi/omega/chi1-5) does not use exactly the documented atoms of each residue", {"topo": cases[k]["topo"]},
-                 observed={nm: res["topo"][str(k)]["indices"][nm] for nm in NAMES}, expected="Gallina atom_sequence over the documented tables (coq/Geom/Topo.v)",
-                 tags={"kind": "named_indices"})
+        k, si = meta[i]
+        if si is None:
+            ctx.fail("a named torsion (phi/psi/omega/chi1-5) does not use exactly the documented atoms of each residue", {"topo": cases[k]["topo"]},
+                     observed={nm: res["topo"][str(k)]["indices"][nm] for nm in NAMES}, expected="Gallina atom_sequence over the documented tables (coq/Geom/Topo.v)",
+                     tags={"kind": "named_indices"})
+        else:
+            ctx.fail("a named torsion computed after an in-place edit of the Topology does not describe the topology as it is now",
+                     {"topo": cases[k]["topo"]},
+                     observed={"after_step": si, "edits": hists[k][0][:si + 1], "indices": {nm: res["topo"][str(k)]["history"][si]["indices"][nm] for nm in NAMES}},
+                     expected="Gallina named_all evaluated on the edited topology", tags={"kind": "named_indices_after_edit"})
 
 
 def correspond(ctx):
